@@ -118,6 +118,9 @@ type HarnessResult struct {
 	Winners       []string
 	UnwindCuts    int
 	FeasibleCombos int
+	RacePairs     int
+	PassBoundHit  int
+	RacePathCaps  int
 }
 
 type Session struct {
@@ -174,10 +177,11 @@ type pcMarkT struct {
 	nTerms    int
 	scriptLen int
 	emitLen   int
+	nAx, nFam, nGrid, nAnch, nI2F, nRange int
 }
 
 func (s *Session) pcMark() pcMarkT {
-	return pcMarkT{len(s.pcTerms), s.script.Len(), len(s.r.emitLog)}
+	return pcMarkT{len(s.pcTerms), s.script.Len(), len(s.r.emitLog), len(s.r.Axioms), len(s.r.family), len(s.r.grid), len(s.r.anchors), len(s.r.i2fs), len(s.r.RangeConds)}
 }
 
 // pcReset rolls the solver context back to a mark (used between isolated thread explorations).
@@ -193,6 +197,15 @@ func (s *Session) pcReset(m pcMarkT) {
 		delete(s.r.emitted, id)
 	}
 	s.r.emitLog = s.r.emitLog[:m.emitLen]
+	s.r.Axioms = s.r.Axioms[:m.nAx]
+	s.r.family = s.r.family[:m.nFam]
+	s.r.grid = s.r.grid[:m.nGrid]
+	for _, a := range s.r.anchors[m.nAnch:] {
+		delete(s.r.anchorSet, realLit(a))
+	}
+	s.r.anchors = s.r.anchors[:m.nAnch]
+	s.r.i2fs = s.r.i2fs[:m.nI2F]
+	s.r.RangeConds = s.r.RangeConds[:m.nRange]
 	s.solver.Send("(reset)\n" + text)
 }
 
@@ -381,6 +394,11 @@ func (s *Session) Obligation(id, kind string, cond *Term, pos, msg string) bool 
 	}
 	if c := s.ex.conc; c.active() {
 		// concurrent mode: obligations are recorded per thread path and posed on the composition
+		if s.res.H.Opts["race"] == "1" && kind == "runtime" {
+			// race harnesses decide data-race freedom only: value-dependent run-time checks belong to
+			// the sequential harnesses (reads of shared locations are unconstrained here)
+			return !cond.IsFalse()
+		}
 		c.cur.Asserts = append(c.cur.Asserts, recAssert{ID: id, Cond: cond, Pos: pos, Kind: kind, Msg: msg})
 		return !cond.IsFalse()
 	}
